@@ -25,6 +25,10 @@ type Mutant struct {
 	Why    string
 }
 
+var mutantSets = map[string][]Mutant{}
+
+func addMutants(id string, ms []Mutant) { mutantSets[id] = append(mutantSets[id], ms...) }
+
 type MutantResult struct {
 	ID     string `json:"id"`
 	Status string `json:"status"` // caught | missed | inapplicable | discarded(type error)
